@@ -57,6 +57,17 @@ class Scenario:
         self.chunk = max(1, -(-self.size // self.nchunks_target))
         self.nchunks = -(-self.size // self.chunk)
         self.data = bytes(rng.randrange(256) for _ in range(self.size))
+        self.U = 1
+        if idx % 16 == 7:
+            # replay at scale: one abstract byte of Helper.tla = U real bytes; a file above 1 MiB in one segment (a client
+            # configured with shares.max_segment_size = 2 MiB), Size and Chunk stay small numbers for TLC
+            self.U = 65536
+            units = rng.randint(17, 24)
+            self.size = units * self.U
+            self.chunk = -(-units // self.nchunks_target) * self.U
+            self.nchunks = -(-self.size // self.chunk)
+            self.seg = 2 * 1024 * 1024
+            self.data = rng.randbytes(self.size)
         self.conv = b"conv-%d" % idx
         self.dir = os.path.join(workdir, "sc%d" % idx)
         kw = dict(num_servers=self.nservers, k=self.k, n=self.n, happy=1, max_segment_size=self.seg, seed=idx)
@@ -127,6 +138,11 @@ class Scenario:
         if rng.random() < 0.3:
             plan.append("delete")
             plan.append(None)
+        if self.U > 1:
+            # scaled scenarios: clean sequential uploads only (while a fetch is in progress the size of the buffered incoming
+            # file is not a multiple of U: an artefact of the observation, not of the helper)
+            self.joint = False
+            plan = [p_ for p_ in plan if p_ is None or p_ == "delete"]
         for step in plan:
             if step == "delete":
                 victims = []
@@ -144,14 +160,21 @@ class Scenario:
             self.one_upload(step)
         g.close()
         self.twin.close()
-        return {"consts": {"Size": self.size, "Chunk": self.chunk, "N": self.n, "K": self.k, "pre": pre, "idx": self.idx,
+        return {"consts": {"Size": self.size // self.U, "Chunk": self.chunk // self.U, "U": self.U, "N": self.n, "K": self.k, "pre": pre, "idx": self.idx,
                            "servers": self.nservers, "seg": self.seg},
                 "events": self.events} if not self.joint else {
-            "consts": {"Size": self.size, "Chunk": self.chunk, "N": self.n, "K": self.k, "pre": pre, "idx": self.idx,
-                       "servers": self.nservers, "seg": self.seg, "joint": True},
+            "consts": {"Size": self.size // self.U, "Chunk": self.chunk // self.U, "U": self.U, "N": self.n, "K": self.k, "pre": pre,
+                       "idx": self.idx, "servers": self.nservers, "seg": self.seg, "joint": True},
             "events": self.events}
 
     # every delivered call passes here
+    def sc(self, x):
+        """bytes -> abstract bytes (every legitimate byte count of a scaled scenario is a multiple of U)"""
+        x = int(x)
+        if self.U == 1 or x < 0:
+            return x
+        return x // self.U if x % self.U == 0 else 10 ** 8 + x % self.U
+
     def observe(self, e):
         if not self.recording:
             return
@@ -161,15 +184,15 @@ class Scenario:
                 hur, uh = e["result"]
                 ans = "present" if uh is None else "session"
             self.events.append({"ev": "start", "answer": ans,
-                                "incoming": os.path.getsize(self.incoming) if os.path.exists(self.incoming) else -1,
+                                "incoming": self.sc(os.path.getsize(self.incoming)) if os.path.exists(self.incoming) else -1,
                                 "encoding": os.path.exists(self.encoding)})
         elif e["kind"] == "callback":
             if e["meth"] == "read_encrypted":
                 off, length = e["args"]
-                ev = {"ev": "fetch", "offset": int(off), "length": int(length), "fault": e["fault"], "ngot": 0, "dataok": False}
+                ev = {"ev": "fetch", "offset": self.sc(off), "length": self.sc(length), "fault": e["fault"], "ngot": 0, "dataok": False}
                 if e["outcome"] == "ok":
                     got = b"".join(e["result"])
-                    ev["ngot"] = len(got)
+                    ev["ngot"] = self.sc(len(got))
                     ev["dataok"] = (got == self.ct[off:off + length])
                 elif not e["fault"]:
                     ev["fault"] = "error:" + e["outcome"]
@@ -244,11 +267,11 @@ class Scenario:
             ev["reported_pushed"] = 0
         self.recording = False
         st1 = self.helper.get_stats()
-        ev["incoming"] = os.path.getsize(self.incoming) if os.path.exists(self.incoming) else -1
+        ev["incoming"] = self.sc(os.path.getsize(self.incoming)) if os.path.exists(self.incoming) else -1
         ev["encoding"] = os.path.exists(self.encoding)
         ev["allocated"] = self.allocated
         ev["writes"] = self.writes
-        ev["fetched"] = st1["chk_upload_helper.fetched_bytes"] - st0["chk_upload_helper.fetched_bytes"]
+        ev["fetched"] = self.sc(st1["chk_upload_helper.fetched_bytes"] - st0["chk_upload_helper.fetched_bytes"])
         ev["resumes"] = st1["chk_upload_helper.resumes"] - st0["chk_upload_helper.resumes"]
         ev["active"] = st1["chk_upload_helper.active_uploads"]
         # shares on the grid compared with the twin's direct upload
